@@ -182,7 +182,7 @@ theorem entryLe_trans (x y z : Entry) (h1 : entryLe x y = true) (h2 : entryLe y 
   unfold entryLe at h1 h2 ⊢
   by_cases hxy : x.1 = y.1 <;> by_cases hyz : y.1 = z.1
   · have hxz : x.1 = z.1 := hxy.trans hyz
-    simp [hxy, hyz, hxz] at h1 h2 ⊢
+    simp [hxy, hyz] at h1 h2 ⊢
     rw [← hyz] at *
     simp_all
     exact bytesLe_trans _ _ _ h1 h2
@@ -257,6 +257,7 @@ theorem get_map_checked (dircap : Bytes) (now : Int) (key : K) (l : List (K × D
     obtain ⟨k2, v2⟩ := p
     by_cases h2 : k2 = key <;> by_cases h3 : v2.dircap = dircap <;> simp [get, h2, h3] <;> simpa using ih
 
+omit [DecidableEq K] in
 theorem alloc_dirs (db : Db K) (cap : Bytes) : (alloc db cap).1.dirs = db.dirs := by
   unfold alloc
   split <;> rfl
